@@ -8,7 +8,7 @@
 (*   - DiffAll:   _compute_common_cells_from_marginal_diffs, one axis at a time *)
 (*   - counters:  sums / valid counts / missing counts and the reduce rule      *)
 (*                (valid = 0) or, when propagating, (missing # 0)               *)
-EXTENDS Integers, Sequences, FiniteSets, FiniteSetsExt, SequencesExt, TLC
+EXTENDS Integers, Sequences, FiniteSets, FiniteSetsExt, SequencesExt, TLC, Json
 CONSTANTS N,       \* rows
           E,       \* extent of every dimension (categories 0..E-1; common may also be E = absent)
           ND       \* number of dimensions
@@ -84,4 +84,7 @@ Spec == Init /\ [][Next]_vars
 
 WalkIsContract == phase < 2 \/ Delivered = Expected
 CubeIsContract == phase < 3 \/ LET Del == Delivered IN CountOK(Del) /\ SumOK(Del)
+
+\* L2 generator: every configuration of the small scope, for the real cubes (exhaustive small scope on the code too)
+EmitCase == phase < 3 \/ PrintT(<<"CASE", ToJson([data |-> data, commons |-> commons, fvalid |-> fvalid])>>)
 =============================================================================
